@@ -1,7 +1,7 @@
 """C11 configuration for ./check (see checks/propcfg.py for the keys)."""
 CFG = {
-    "modules": ["VaxisModel.Props.C11"],
-    "extractors": ["C11"],
+    "modules": ["VaxisModel.Props.C11", "VaxisModel.Witness.F111"],
+    "extractors": ["C11", "C07"],
     "drivers": ["C11"],
     "stateful": False,
     "trivial_prefix": (),
